@@ -84,8 +84,8 @@ def apalache_inductive(rep, wd):
 def run(rep, tier, seed):
     wd = spec_scratch()
     exe = build_harness()
-    rep.rule = ("(i) all structural token sequences of length <=3 (quick) / <=5 (thorough) over 19 tokens incl. unterminated action, "
-                "comment, string literal and misplaced extends/import, verdict from the push-down acceptor; (ii) every truncation "
+    rep.rule = ("(i) all structural token sequences of length <=3 (quick) / <=5 (thorough) over 21 (quick: 23) tokens incl. unterminated action, "
+                "comment, string literal, misplaced extends/import and extends/import of templates that are broken themselves (thorough: up to 4 tokens), verdict from the push-down acceptor; (ii) every truncation "
                 "(each byte offset) of every accepted sequence; (iii) all sequences of <=2 / <=3 lexeme classes (55 classes incl. "
                 "multi-byte letters, invalid UTF-8, control bytes, unterminated literals) in 8 (quick) / 13 keyword contexts, each also cut off right behind its last lexeme; each under "
                 "default and custom delimiters, parsed through Set.Parse and Set.GetTemplate in a worker process with a 10 s "
@@ -105,6 +105,8 @@ def run(rep, tier, seed):
             ("JetLexemes.tla", "MC_Lexemes_quick.cfg", "lexeme", ["A"] if tier == "quick" else ["A", "C"])]
     if tier == "thorough":
         fams.append(("JetLexemes.tla", "MC_Lexemes_thorough.cfg", "lexeme3", ["A"]))
+        # extends/import of templates that are themselves broken, in sequences of up to four tokens
+        fams.append(("JetStruct.tla", "MC_Struct_deps.cfg", "structdeps", ["A", "C"]))
     tdir = os.path.join(wd, "lextrace")
     os.makedirs(tdir)
     for mod, cfg, fam, cfgs in fams:
